@@ -22,9 +22,9 @@ package utils
 //@ exports 0 <= result && result < pow2(len)
 //@ loop 1
 //@ split i-pos in 0..64
-//@ invariant pos <= i && i-pos <= len
-//@ invariant forall(k, 0, 64, k < i-pos ==> bitof(result, i-pos-1-k) == bit(buff, pos+k))
-//@ invariant i-pos == 64 || result>>(i-pos) == 0
+//@ invariant[C14,C07] pos <= i && i-pos <= len
+//@ invariant[C14] forall(k, 0, 64, k < i-pos ==> bitof(result, i-pos-1-k) == bit(buff, pos+k))
+//@ invariant[C14] i-pos == 64 || result>>(i-pos) == 0
 //@ decreases pos+len-i
 
 //@ func GetBitsAsInt64
@@ -36,3 +36,22 @@ package utils
 //@ ensures[C14] forall(k, 0, 64, k >= len ==> bitof(result, k) == bit(buff, pos))
 //@ exports result == sbits(buff, pos, len)
 //@ exports 0-pow2(len-1) <= result && result < pow2(len-1)
+
+// Package variables established by init and never written afterwards
+// (structural obligation globals-init-only).
+//@ define isMSM4(t) = t == 1074 || t == 1084 || t == 1094 || t == 1104 || t == 1114 || t == 1124 || t == 1134
+//@ define isMSM7(t) = t == 1077 || t == 1087 || t == 1097 || t == 1107 || t == 1117 || t == 1127 || t == 1137
+//@ define isMSM(t) = isMSM4(t) || isMSM7(t)
+//@ global[C20] MSM4MessageTypes != nil && forallint(t, has(MSM4MessageTypes, t) == isMSM4(t))
+//@ global[C20] MSM7MessageTypes != nil && forallint(t, has(MSM7MessageTypes, t) == isMSM7(t))
+//@ global[C06,C17] isUTC(LocationUTC)
+//@ global[C06,C17] GPSTimeOffset == 0 - 18000000000 && BeidouLeapSeconds == 0 - 4 && BeidouTimeOffset == 0 - 4000000000 && GlonassTimeOffset == 0 - 10800000000000
+
+//@ func MSM4
+//@ ensures[C20] result == isMSM4(messageType)
+
+//@ func MSM7
+//@ ensures[C20] result == isMSM7(messageType)
+
+//@ func MSM
+//@ ensures[C20] result == isMSM(messageType)
